@@ -153,6 +153,12 @@ REASONS = [
     (r"^rrdp::ProcessDelta::process$", r"call:unwrap",
      "action is set by the element closure before it can return Ok; the unwrap is reached only when take_opt_element returned Some",
      [r"^discr\(Try::branch\(Content::take_opt_element_with_limit\(.* -> 1$"]),
+    (r"^rtr::pdu::Error::new$", r".",
+     "documented precondition of the constructor (the PDU length must fit u32); every in-crate caller passes a PDU header or the "
+     "fixed part of a payload PDU (at most 32 octets) and a literal message"),
+    (r"^rtr::pdu::Error::skip_payload$", r"assert:Overflow:Sub",
+     "read is at most min(remaining, 1024) because the buffer handed to `read` is cut to that length (C07 R-FLOW "
+     "read-is-bounded-by-what-is-missing), so remaining - read cannot wrap"),
     (r"^rtr::state::State::new_with_serial$", r"call:unwrap", "fails only when the system clock is before 1970; not input-dependent"),
     (r"^util::base64::Xml::decode_bytes$", r"assert:BoundsCheck", "valid_up_to() < input.len() when from_utf8 fails"),
     (r"^util::hex::encode$", r".",
@@ -189,6 +195,8 @@ def main():
             ins = " ".join(r["inputs"])
             if "xml::decode::" in ins or r["name"] in ("parse", "decode", "from_str", "try_from", "base64_decode", "ascii_into"):
                 extra.append(n)
+    extra += [n for n, r in f.fns.items() if r.get("has_body") and n.startswith("rtr::pdu::") and
+              r["name"] in ("read", "try_read", "read_payload", "skip_payload", "to_payload", "read_or_close")]
     reach2, _ = C04.callback_closure(f, CallGraph(f), extra)
     seen_sites = {(s.body.name, s.bb) for s in sites}
     more = [s for s in C04.enumerate_sites(f, reach2) if (s.body.name, s.bb) not in seen_sites]
